@@ -315,6 +315,7 @@ long sysconf(int name) { return (vf_sysconf_val); }
 int vf_dtablesize;			/* harness */
 int getdtablesize(void) { return (vf_dtablesize); }
 int vf_write_calls, vf_write_ok, vf_write_last_fd;
+int vf_write_ok_by_fd[VF_FD_MAX];	/* successful writes per descriptor of the ledger */
 ssize_t write(int fd, const void *buf, size_t n) {
 	vf_write_calls ++;
 	vf_write_last_fd = fd;
@@ -325,6 +326,7 @@ ssize_t write(int fd, const void *buf, size_t n) {
 	if (VF_MAY_FAIL())
 		return (vf_fail());
 	vf_write_ok ++;
+	vf_write_ok_by_fd[fd - VF_FD_BASE] ++;
 	return ((ssize_t)n);
 }
 void syslog(int pri, const char *fmt, ...) { }
